@@ -200,14 +200,37 @@ def tlc_values(out, prefixes):
 _RE_VERDICT = re.compile(r'<<"(ACCEPT|MISMATCH|STUCK|DONE)"(?:, (.*))?>>')
 
 
-def leg_t(rep, work, spec, name, cfg, traces, decode=None, timeout=1800, heap="8g", kf_of=None):
+def leg_t_gen(rep, work, mod, name, traces, variables, constants, config_vars, actions, internal=None, quiet=None,
+              invariants=(), timeout=1800):
+    """leg T through a generated trace module (harness/tracegen.py): the module is written to the scratch directory,
+    next to links to the hand-written specifications it instantiates"""
+    from . import tracegen
+    for f in os.listdir(tlc.SPECS):
+        if f.endswith(".tla") and not os.path.exists(work.path(f)):
+            os.symlink(os.path.join(tlc.SPECS, f), work.path(f))
+    gen = tracegen.generate(work.dir, mod, variables, constants, config_vars, actions, internal, quiet, invariants)
+    cfg = cfg_text(None, spec="TraceSpec", invariants=[f"Inv_{i}" for i in invariants], constraints=["Track"],
+                   postcondition="Report")
+    return leg_t(rep, work, gen, name, cfg, traces, timeout=timeout, cwd=work.dir)
+
+
+def leg_t(rep, work, spec, name, cfg, traces, decode=None, timeout=1800, heap="8g", kf_of=None, cwd=None):
     """validate traces recorded from the real code against the trace specification (one TLC run)"""
     from . import tlaval
     tf = work.path(f"{spec}_{name}_traces.json")
     with open(tf, "w") as f:
         json.dump(traces, f)
     p = tlc.write_cfg(cfg, work.dir, f"{spec}_{name}.cfg")
-    res = tlc.run(spec, p, workers=1, timeout=timeout, heap=heap, env={"TRACE_FILE": tf})
+    try:
+        res = tlc.run(spec, p, workers=1, timeout=timeout, heap=heap, env={"TRACE_FILE": tf}, cwd=cwd)
+    except TLCError as e:
+        if "Attempted to" in str(e) or "cannot be compared" in str(e) or "not enumerable" in str(e):
+            # an observation outside the vocabulary of the specification (wrong type / shape): no successor state
+            # can equal it, so this is a divergence of the implementation, not a verdict we can localise
+            rep.violation(dict(leg="T", spec=spec, cfg=name, why="a recorded observation has a shape the specification "
+                               "never produces (TLC could not compare it)", detail=str(e)[-1500:], trace=traces[0][:5]), tag="T")
+            return {}
+        raise
     verdicts = {}
     for text in tlc_values(res.out, ('<<"ACCEPT"', '<<"MISMATCH"', '<<"STUCK"')):
         v = tlaval.parse_value(text)
